@@ -314,6 +314,8 @@ func c1IndependentCompile(ctx context.Context, sources map[string]string, paths 
 	return out, nil
 }
 
+var c1CompileCache = map[string]map[string]*descriptorpb.FileDescriptorProto{}
+
 func c1PathsOf(files []ImageFile) []string {
 	var out []string
 	for _, f := range files {
@@ -427,8 +429,25 @@ func (r *c1Run) checkImage(ctx context.Context, w *c1WS, image Image, how string
 			sources[c1WKTPath] = string(data)
 		}
 	}
-	want, err := c1IndependentCompile(ctx, sources, paths)
-	if err != nil {
+	// compile every file of the workspace once per source set (the target choice does not matter here)
+	paths = paths[:0]
+	key := ""
+	for p := range sources {
+		paths = append(paths, p)
+	}
+	sort.Strings(paths)
+	for _, p := range paths {
+		key += p + "\x00" + sources[p] + "\x00"
+	}
+	want, ok := c1CompileCache[key]
+	if !ok {
+		compiled, err := c1IndependentCompile(ctx, sources, paths)
+		if err == nil {
+			want = compiled
+		}
+		c1CompileCache[key] = want
+	}
+	if want == nil {
 		return
 	}
 	for _, f := range files {
@@ -572,7 +591,11 @@ func (r *c1Run) familyShapes(ctx context.Context, full bool) {
 			}
 		}
 		for mask := 0; mask < 1<<nEdges; mask++ {
-			for _, targets := range c1Subsets(n, maxSize) {
+			targetSets := c1Subsets(n, maxSize)
+			if n == 4 && !full {
+				targetSets = [][]int{{0}, {1}, {3, 0}, {0, 1, 2, 3}}
+			}
+			for _, targets := range targetSets {
 				r.build(ctx, &c1WS{files: c1Shape(n, mask, c1Used), targets: targets})
 			}
 		}
